@@ -1,3 +1,117 @@
 import Sheens.ES
+import Sheens.Proofs.EngineLemmas
 
-/-! Property C08 — theorems (in progress). -/
+/-!
+# Property C08 — emission is atomic
+
+For all DSL programs in the ECMAScript flavour (every order of emit / mutate / fail operations,
+failure after the k-th emit for every k, timeout, bad return value) and for all specs.
+-/
+
+namespace Sheens.C08
+
+/-- An ECMAScript action that fails — by throwing, timing out, emitting something unserialisable or
+    returning something that is not bindings — hands back no execution, hence no emissions. -/
+theorem es_failure_no_execution (p : Prog) (bs : Option Bs) (hes : p.native = false)
+    (e : String) (he : (p.run bs).err = some e) : (p.run bs).exe = none := by
+  simp only [Prog.run] at he ⊢
+  generalize runOps p.ops (copyB bs) [] = r at he ⊢
+  rcases r with ⟨x, b, em⟩ | ⟨b, em⟩
+  · cases x <;> simp_all
+  · cases hr : p.ret <;> simp_all
+
+/-- Through `FuncAction.Exec` such a failure carries an empty emission buffer. -/
+theorem es_failure_emits_nothing (p : Prog) (bs : Option Bs) (hes : p.native = false)
+    (e : String) (he : (execWrap p.run bs).err = some e) :
+    (execWrap p.run bs).exe = some (none, []) := by
+  rw [execWrap_err] at he
+  have := es_failure_no_execution p bs hes e he
+  unfold execWrap
+  simp only [this]
+
+/-- A step whose action hands back no emissions together with its error emits nothing, however the
+    error is routed. -/
+theorem failing_action_emits_nothing (s : Spec) (st : State) (pending : Option V) (n : Node)
+    (a : ActionF) (e : String)
+    (hn : findNode st.node s.nodes = some n) (ha : n.action = some a)
+    (he : (execWrap a st.bs).err = some e) (hx : (execWrap a st.bs).exe = some (none, [])) :
+    ∀ sd, (step s st pending).stride = some sd → sd.emitted = [] := by
+  intro sd hsd
+  have hx2 : (exeOut (execWrap a st.bs).exe).2 = [] := by rw [hx]; rfl
+  cases step_cases s st pending with
+  | nostride h => rw [h] at hsd; cases hsd
+  | noaction n' hn' ha' h => rw [hn] at hn'; cases hn'; rw [ha] at ha'; cases ha'
+  | ok n' a' hn' ha' hm he' h =>
+    rw [hn] at hn'; cases hn'; rw [ha] at ha'; cases ha'; rw [he] at he'; cases he'
+  | errBranches n' a' e' hn' ha' hm he' h =>
+    rw [hn] at hn'; cases hn'; rw [ha] at ha'; cases ha'
+    obtain ⟨sd', h1, h2, _⟩ := stepRest_stride st n (some (actErrBs e' st.bs)) (exeOut (execWrap a st.bs).exe).2 pending
+    rw [h, h1] at hsd; cases hsd; rw [h2, hx2]
+  | errNode n' a' e' hn' ha' hm he' h =>
+    rw [hn] at hn'; cases hn'; rw [ha] at ha'; cases ha'
+    rw [h] at hsd; cases hsd; exact hx2
+
+/-- What a step emits is exactly what the node's action emitted: guards never contribute. -/
+theorem step_emitted_is_actions (s : Spec) (st : State) (pending : Option V) (sd : Stride)
+    (h : (step s st pending).stride = some sd) :
+    sd.emitted = [] ∨
+      ∃ n a bsx em, findNode st.node s.nodes = some n ∧ n.action = some a ∧
+        (execWrap a st.bs).exe = some (bsx, em) ∧ sd.emitted = em := by
+  have key : ∀ (a : ActionF), ∃ bsx em, (execWrap a st.bs).exe = some (bsx, em) ∧
+      (exeOut (execWrap a st.bs).exe).2 = em := by
+    intro a
+    have := execWrap_exe_ne_none a st.bs
+    generalize (execWrap a st.bs).exe = x at this ⊢
+    rcases x with _ | ⟨_ | b, em⟩
+    · exact absurd rfl this
+    · exact ⟨_, _, rfl, rfl⟩
+    · exact ⟨_, _, rfl, rfl⟩
+  cases step_cases s st pending with
+  | nostride h' => rw [h'] at h; cases h
+  | noaction n hn ha h' =>
+    obtain ⟨sd', h1, h2, _⟩ := stepRest_stride st n st.bs [] pending
+    rw [h', h1] at h; cases h; exact Or.inl h2
+  | ok n a hn ha hm he h' =>
+    obtain ⟨sd', h1, h2, _⟩ := stepRest_stride st n (some (exeOut (execWrap a st.bs).exe).1) (exeOut (execWrap a st.bs).exe).2 pending
+    rw [h', h1] at h; cases h
+    obtain ⟨bsx, em, k1, k2⟩ := key a
+    exact Or.inr ⟨n, a, bsx, em, hn, ha, k1, by rw [h2, k2]⟩
+  | errBranches n a e hn ha hm he h' =>
+    obtain ⟨sd', h1, h2, _⟩ := stepRest_stride st n (some (actErrBs e st.bs)) (exeOut (execWrap a st.bs).exe).2 pending
+    rw [h', h1] at h; cases h
+    obtain ⟨bsx, em, k1, k2⟩ := key a
+    exact Or.inr ⟨n, a, bsx, em, hn, ha, k1, by rw [h2, k2]⟩
+  | errNode n a e hn ha hm he h' =>
+    rw [h'] at h; cases h
+    obtain ⟨bsx, em, k1, k2⟩ := key a
+    exact Or.inr ⟨n, a, bsx, em, hn, ha, k1, k2⟩
+
+/-- A node without an action emits nothing (in particular its guards do not). -/
+theorem no_action_no_emission (s : Spec) (st : State) (pending : Option V) (n : Node)
+    (hn : findNode st.node s.nodes = some n) (ha : n.action = none) :
+    ∀ sd, (step s st pending).stride = some sd → sd.emitted = [] := by
+  intro sd h
+  rcases step_emitted_is_actions s st pending sd h with h | ⟨n', a, _, _, hn', ha', _, _⟩
+  · exact h
+  · rw [hn] at hn'; cases hn'; rw [ha] at ha'; cases ha'
+
+/-- The emissions of a stride of a walk are those of its step (the error transition adds none). -/
+theorem walkStride_emitted (s : Spec) (st : State) (pending : Option V) :
+    (walkStride s st pending).emitted =
+      (match (step s st pending).stride with | some sd => sd.emitted | none => []) := by
+  unfold walkStride
+  simp only
+  cases (step s st pending).err with
+  | none => simp only; cases (step s st pending).stride <;> rfl
+  | some e =>
+    simp only
+    split <;> cases (step s st pending).stride <;> rfl
+
+/-- The messages reported for a walk are the concatenation, in execution order, of the strides'
+    emissions (`Walked.DoEmitted`). -/
+theorem walk_emitted_in_order (w : Walked) :
+    emittedOf w = (w.strides.map (·.emitted)).flatten := by
+  unfold emittedOf
+  rw [List.flatMap_def]
+
+end Sheens.C08
